@@ -222,19 +222,44 @@ Proof. exact mer_loss_formula. Qed.
 Print Assumptions c02_mer_loss_formula.
 
 (* the error rate entering the loss for sample (n, m) is one the property admits for it *)
-Theorem c02_mer_er_admitted : forall c ref hyp n m,
+Theorem c02_mer_er_allowed : forall c ref hyp n m,
   spec_er_val (c_norm c) (c_ins c) (c_del c) (c_sub c)
     (denote (c_eos c) (c_incl c) (ref_seq (c_bf c) n m ref))
     (denote (c_eos c) (c_incl c) (seq3_of (c_bf c) n m hyp))
     (pair_er c (ref_seq (c_bf c) n m ref) (seq3_of (c_bf c) n m hyp)).
-Proof. exact mer_er_admitted. Qed.
-Print Assumptions c02_mer_er_admitted.
+Proof. exact mer_er_allowed. Qed.
+Print Assumptions c02_mer_er_allowed.
 
 (* "all (N, M>=2) sample sets": fewer than two samples is an error *)
 Theorem c02_mer_loss_too_few_samples : forall c sub_avg red N M w ref hyp,
   (M < 2)%nat -> mer_loss c sub_avg red N M w ref hyp = MErr.
 Proof. exact mer_loss_too_few_samples. Qed.
 Print Assumptions c02_mer_loss_too_few_samples.
+
+(* the judgement of an observed loss that the harness applies on a disagreement: it accepts
+   exactly when SOME matrix E of admitted error rates (one admissible value per sample,
+   [adm_vals] = counts of minimum-cost alignments, normalised with the empty-reference rule)
+   makes the declarative formula [spec_loss] (w * (E - row mean)) match within the tolerance *)
+Theorem c02_spec_mer_core_iff : forall eos incl norm ci cd cs sub_avg red M pairs W tol obs,
+  (2 <= M)%nat ->
+  spec_mer_core eos incl norm ci cd cs sub_avg red M pairs W tol obs = true <->
+  exists E, allowed_rates eos incl norm ci cd cs pairs E
+            /\ loss_close red (length pairs * M) (spec_loss sub_avg M E W) tol obs = true.
+Proof. exact spec_mer_core_iff. Qed.
+Print Assumptions c02_spec_mer_core_iff.
+
+Theorem c02_adm_vals_iff : forall eos incl norm ci cd cs rh q,
+  In q (adm_vals eos incl norm ci cd cs rh) <->
+  let r := denote eos incl (fst rh) in
+  let h := denote eos incl (snd rh) in
+  if norm then
+    match length r with
+    | O => q = (if (0 <? length h)%nat then 1%Q else 0%Q)
+    | S _ => exists m, er_spec ci cd cs r h m /\ q = ((m # 1) / (Z.of_nat (length r) # 1))%Q
+    end
+  else exists m, er_spec ci cd cs r h m /\ q = (m # 1).
+Proof. exact adm_vals_iff. Qed.
+Print Assumptions c02_adm_vals_iff.
 
 (* non-vacuity: a ragged batch-first batch with eos = 9 (eos at position 0 = empty reference,
    garbage after eos, a hypothesis without eos), unequal costs (3/4, 1/4, 1) for which
